@@ -17,7 +17,7 @@ class Skip(Exception):
 def comment_lines(lay, tag, ind, stray=False):
     """(see below) -- `stray` puts a non-tag '<' before the tag inside the same comment"""
     cl = _comment_lines(lay, tag, ind)
-    if stray and lay["form"] in ("hash", "mlmid", "mllast", "xml", "cblock"):
+    if stray and lay["form"] in ("hash", "mlmid", "mllast", "xml", "cblock", "xmlli", "xmlbq", "divli"):
         k = lay["tagl"]
         cl[k] = cl[k].replace(tag, "i < j " + tag, 1) if lay["form"] not in ("cinline",) else cl[k]
     return cl
@@ -44,9 +44,9 @@ def _comment_lines(lay, tag, ind):
         return ["/* text", "   " + tag, "   more */"]
     if form == "mllast":
         return ["/* a", "   b", "   " + tag + " */"]
-    if form == "xml":
+    if form in ("xml", "xmlli", "xmlbq", "divli", "divbq", "div"):
         return [sp + "<!-- " + tag + " -->"]
-    if form == "mxml":
+    if form in ("mxml", "mxmlli", "mxmlbq"):
         return ["<!--", tag, "-->"]
     if form == "mdparen":
         return ["[//]: # (" + tag + ")"]
@@ -61,13 +61,20 @@ def render(case, kind, mb, ci):
     lay, j, koff, klen = case["lay"], case["j"], case["koff"], case["klen"]
     form = lay["form"]
     key = "Q" * klen
-    md = form in ("xml", "mxml", "mdparen")
+    cont = lay.get("cont", 0)
+    koff -= cont          # columns inside the container; the prefix is added to every line at the end
+    div = form in ("divli", "divbq", "div")
+    md = form in ("xml", "mxml", "mdparen") or cont > 0 or div
     py = form in ("hash", "trail")
     name = "r.md" if md else ("r.py" if py else "r.rs")
     rule = RULE.get(kind) or ('check-lua="%s"' % case["_script"] if kind == "lua" else 'check-ai="c [[%s]]"' % case["_key"])
     tag = '<block name="r" %s>' % rule
     ind = ci % 3 if form in ("hash", "cblock", "xml") else 0
     pre = [("v%d = 1" % k) if py else "" if md else ("static P%d: i32 = 1;" % k) for k in range(lay["pre"])]
+    if cont or div:
+        pre = ["intro %d" % k for k in range(lay["pre"])]
+        if div:
+            pre[-1] = "<div>"         # the HTML block starts here; the comment is on its second line
     cl = comment_lines(lay, tag, ind, stray=(ci % 3 == 1))
     assert len(cl) - 1 - lay["tagl"] == lay["more"], (form, len(cl))
     if lay["inline"]:
@@ -87,15 +94,18 @@ def render(case, kind, mb, ci):
             fill = koff - 4
             if j == 0:
                 raise Skip()
-            content[j] = ("é" * fill if mb else " " * fill) + "id: " + key
+            filler = "é" * fill if mb else " " * fill
+            if not mb and fill >= klen + 1 and ci % 2 == 0:
+                filler = key + " " * (fill - klen)       # the key's text also occurs earlier in the line, outside the match
+            content[j] = filler + "id: " + key
             for k in range(1, 5):
                 if k != j:
                     content[k] = ("id: u%d" % k) if kind == "unique" else ("id: A" if k < j else "id: 0%d" % k)
             # the earlier occurrence (unique) / the smaller predecessor (sorted desc)
             content[j - 1] = (" " if j - 1 == 0 else "") + "id: " + (key if kind == "unique" else "A")
         else:
-            if mb:
-                raise Skip()       # the key of these validators is the whole trimmed line
+            if mb or form.endswith("bq"):
+                raise Skip()       # the key of these validators is the whole trimmed line (in a block quote it includes the "> ")
             if j == 0:
                 if koff <= lay["cend"]:
                     raise Skip()
@@ -119,6 +129,12 @@ def render(case, kind, mb, ci):
         lines[last] = lines[last] + content[0]
     lines += [content[k] for k in range(1, 5)]
     lines += (["", "[//]: # (</block>)"] if form == "mdparen" else ["<!-- </block> -->"]) if md else (["# </block>"] if py else ["/* </block> */"])
+    if div:
+        lines.append("</div>")
+    if cont:
+        bq = form.endswith("bq")
+        lines = [("> " if bq else ("- " if k == 0 else "  ")) + l for k, l in enumerate(lines)]
+        koff += cont
     text = "\n".join(lines) + "\n"
     kidx = last + j
     kline = lines[kidx]
@@ -171,7 +187,7 @@ def run(chk):
                             "env": {"BLOCKWATCH_AI_API_URL": fake.url, "BLOCKWATCH_AI_API_KEY": "k"}}
                     if kind == "affects":
                         # modify content line (the last content line) so that the block counts as modified
-                        ln = len(lines) - 1
+                        ln = len(lines) - 1 - (1 if lines[-1].endswith("</div>") else 0)
                         case.update(terminal=False, diff="diff --git a/%s b/%s\n--- a/%s\n+++ b/%s\n@@ -%d +%d @@\n-old\n+%s\n" % (
                             name, name, name, name, ln, ln, lines[ln - 1]))
                     batch.append(case)
